@@ -33,6 +33,9 @@ type CaseC18 struct {
 	LateHeads bool `json:"late_heads,omitempty"`
 	// SharedOpts: every database of the instance is opened through one options value, as callers do
 	SharedOpts bool `json:"shared_opts,omitempty"`
+	// NoRepl: the instance under test opens its databases with replication off (no topic, no head exchange):
+	// entries still reach them by Sync, and their replicators still have to be stopped
+	NoRepl bool `json:"no_repl,omitempty"`
 }
 
 func genC18(rt *rapid.T) CaseC18 {
@@ -44,6 +47,7 @@ func genC18(rt *rapid.T) CaseC18 {
 		MidWrite:      rapid.Bool().Draw(rt, "midWrite"),
 		LateHeads:     rapid.Bool().Draw(rt, "lateHeads"),
 		SharedOpts:    rapid.Bool().Draw(rt, "sharedOpts"),
+		NoRepl:        rapid.IntRange(0, 2).Draw(rt, "noRepl") == 0,
 	}
 	for i := 0; i < n; i++ {
 		c.Types = append(c.Types, rapid.SampledFrom([]string{"eventlog", "keyvalue", "docstore"}).Draw(rt, "type"))
@@ -117,9 +121,15 @@ func execC18(c CaseC18) *Outcome {
 		return fail("harness: %v", err)
 	}
 	shared := &orbitdb.CreateDBOptions{}
+	if c.NoRepl {
+		shared.Replicate = &no
+	}
 	openOpts := func() *orbitdb.CreateDBOptions {
 		if c.SharedOpts {
 			return shared
+		}
+		if c.NoRepl {
+			return &orbitdb.CreateDBOptions{Replicate: &no}
 		}
 		return &orbitdb.CreateDBOptions{}
 	}
@@ -507,7 +517,7 @@ func clipStack(s string) string {
 }
 
 func summaryC18(c CaseC18) string {
-	return fmt.Sprintf("%d database(s), in flight %v, fetches released before close: %v, concurrent writer: %v", len(c.Types), c.InFlight, c.ReleaseBefore, c.MidWrite)
+	return fmt.Sprintf("%d database(s), in flight %v, fetches released before close: %v, concurrent writer: %v, replication option off: %v", len(c.Types), c.InFlight, c.ReleaseBefore, c.MidWrite, c.NoRepl)
 }
 
 func TestC18(t *testing.T) { runCheck(t, "C18", genC18, execC18) }
